@@ -250,6 +250,12 @@ func (conR *ConsensusReactor) Receive(chID byte, src *p2p.Peer, msgBytes []byte)
 		}
 		switch msg := msg.(type) {
 		case *ProposalMessage:
+			// SetHasProposal allocates a bit array of BlockPartsHeader.Total bits for any peer, before the
+			// proposal is verified: 128 GiB for a 118-byte message with Total = 1<<40.
+			if !validPartsTotal(msg.Proposal.BlockPartsHeader.Total) {
+				log.Warnw("Ignoring proposal with invalid BlockPartsHeader.Total", "src", src, "total", msg.Proposal.BlockPartsHeader.Total)
+				return
+			}
 			ps.SetHasProposal(msg.Proposal)
 			conR.conS.peerMsgQueue <- msgInfo{msg, src.Key}
 		case *ProposalPOLMessage:
